@@ -111,25 +111,25 @@ CHECKS = {
 
 # Extensions made after the seeding rounds (DESIGN.md §11.8): appended to the level text of each check.
 EXT = {
- "C01": " Extended: AllocateWithMAC entry point, lease pools advanced by the allocator's own ticker under testing/synctest with the store echoing local writes, fill/mass-expiry/refill scenarios on 500-4000-unit pools, a three-node PeerPool cluster over an in-memory transport (forwarded paths), hostile subscriber identifiers, placements just outside the range, delegation lengths beyond /64, holders re-asking while a store write fails.",
+ "C01": " Extended: AllocateWithMAC entry point, lease pools advanced by the allocator's own ticker under testing/synctest with the store echoing local writes, fill/mass-expiry/refill scenarios on 500-4000-unit pools, a three-node PeerPool cluster over an in-memory transport (forwarded paths), hostile subscriber identifiers, placements just outside the range, delegation lengths beyond /64, holders re-asking while a store write fails; a failed release that forgets the holder while the store keeps the record.",
  "C02": " Extended: DECLINE/RELEASE/REQUEST naming foreign, offered, free and outside addresses, pool-cycling symbols that walk the whole free list, offer-unique clause, pool geometries as a dimension.",
  "C03": " Extended: every IP identification/TOS value per pool and reply shape (header arithmetic), near-miss circuit-ids from stations without a binding, hardware addresses of 6-16 octets, circuit-ids longer than the key, replacement of the CPE behind a circuit-id (random and scripted).",
- "C04": " Extended: session-id counter placed at and across its wrap with live low ids in every phase (hook-placed and by real churn), ownership record judged on every PADS.",
+ "C04": " Extended: session-id counter placed at and across its wrap with live low ids in every phase (hook-placed and by real churn), ownership record judged on every PADS; composed link of the real Authenticator, IPCP automaton and address pool (no address allocated, suggested or acknowledged before the session's authentication was accepted).",
  "C05": " Extended as C01, plus conservation across an owner outage of the PeerPool cluster (listed known finding).",
- "C06": " Extended: Option 82 at every inspected offset with trailing sub-options, LPM keys for every prefix length, every keyed entry written by the real writer and looked for by the real program (VLAN pair, circuit-id, MAC, ALG trigger), values written by the real dhcp.Server on an ACK.",
- "C07": " Extended: differential clause 'unbound is other traffic' for antispoof, QoS (incl. installs that failed half-way on a full map) and the DHCP fast path (removed MAC/circuit-id/VLAN entries, near-miss circuit-ids), every DHCP message type with replies allowed only to DISCOVER/REQUEST.",
+ "C06": " Extended: Option 82 at every inspected offset with trailing sub-options, LPM keys for every prefix length, every keyed entry written by the real writer and looked for by the real program (VLAN pair, circuit-id, MAC, ALG trigger), values written by the real dhcp.Server on an ACK; one long-lived loader with histories of other subscribers before every judged entry, read-back and removal under the derived key, antispoof MAC key end to end over every bit pattern.",
+ "C07": " Extended: differential clause 'unbound is other traffic' for antispoof, QoS (incl. installs that failed half-way on a full map) and the DHCP fast path (removed MAC/circuit-id/VLAN entries, near-miss circuit-ids), every DHCP message type with replies allowed only to DISCOVER/REQUEST; a frame that nat44 modifies and passes must carry its complete transport header.",
  "C08": " Extended: per-phase outage schedules with StopSession at every position, graceful-stop-then-restart as a crash point, the DHCP server's own Start/Stop emission incl. renew/rediscover on a lapsed-unswept lease, mass session end through the rate-limited client.",
  "C09": " Extended: stateful handler hammer (51 handler-state pairs primed by the legitimate exchange, hostile packets that pass the identifier gates) and a third pass with every pool/table exhausted.",
  "C10": " Extended: real kernel maps with 'full' and 'read-only' faults at every map write, the log as it is on disk across rotation/retention/restart, every way of configuring public addresses.",
- "C11": " Extended: identifier classes (current/older/non-Configure/never-used) for every reply type, non-matching-reply-discarded and leaves-opened clauses, request-content shapes (repeated/unknown/maximal option lists) with a differential ack-only-acceptable clause.",
+ "C11": " Extended: identifier classes (current/older/non-Configure/never-used) for every reply type, non-matching-reply-discarded and leaves-opened clauses, request-content shapes (repeated/unknown/maximal option lists) with a differential ack-only-acceptable clause; looped-back-link requests (own magic number), acknowledgements of a superseded request that shared the identifier.",
  "C12": " Extended: AllocateWithMAC path, renew under a store fault, lease-mode pools over /30 units, panics of a restored allocator reported as findings.",
- "C13": " Extended: layer C (connection lifecycle through a relay: overlapping, half-open, storms, two standbys behind one address), layer D (faults on each HTTP exchange of a connection attempt), layer E (snapshots held against the live stream, FullSyncInterval variants).",
+ "C13": " Extended: layer C (connection lifecycle through a relay: overlapping, half-open, storms, two standbys behind one address), layer D (faults on each HTTP exchange of a connection attempt), layer E (snapshots held against the live stream, FullSyncInterval variants); layer F (changes between the snapshot handler's table read and its reply, full syncs while the active is quiet).",
  "C14": " Extended: stuck-in-pending/failback-pending clauses, quiescence check at the end of every sequence, scripted operator commands at every offset of every timer window.",
  "C15": " Extended: order-agnostic collection with bounded waits (no assumption that the listener is sequential), overlap workload with held callbacks and bursts.",
- "C16": " Extended: a fault at every resource-programming step of establishment and at every external step of termination (tiny full / read-only kernel maps, refused RADIUS exchanges, refusing allocators), held-point overlap of every pair of termination paths, phases x sweeps under virtual time, shutdown at every phase and lease age, context-honouring collaborators.",
+ "C16": " Extended: a fault at every resource-programming step of establishment and at every external step of termination (tiny full / read-only kernel maps, refused RADIUS exchanges, refusing allocators), held-point overlap of every pair of termination paths, phases x sweeps under virtual time, shutdown at every phase and lease age, context-honouring collaborators; sessions ending by their own path while the server shuts down, PPPoE populations sharing a MAC or user name with key-addressed disconnects.",
  "C17": " Extended: exhaustive Add/Remove(/health) membership histories against a set model, random clusters, owner-outage phase, end-to-end serving agreement with adversarial node names in every configuration order and across health/membership changes.",
- "C18": "",
- "C19": " Extended: asymmetric and one-direction-unlimited policies, previous control-plane states (same name redefined, override keeping the name, removed), near-miss policy names, accepted policies when the maps are full (maps of the declared type shrunk), the contract across DHCP renewals while traffic flows.",
+ "C18": " Extended: accepted bindings stay in force when the binding table (declared type, shrunk) is full, incl. churn.",
+ "C19": " Extended: asymmetric and one-direction-unlimited policies, previous control-plane states (same name redefined, override keeping the name, removed), near-miss policy names, accepted policies when the maps are full (maps of the declared type shrunk), the contract across DHCP renewals while traffic flows; control-plane histories on bucket maps that fill at different moments (installs refused half way, removals, bystanders) judged in the kernel after every call.",
  "C20": " Extended: concurrent callers of the VLAN allocator on the same and on different NTEs.",
 }
 
